@@ -193,7 +193,7 @@ func runHist(payload string) (string, string) {
 		}
 	})
 	if !ok {
-		return "HANG\t!operations on shared " + map[string]string{"a": "atoms", "f": "futures"}[head[1]] + " blocked forever", "-"
+		return "BLOCKED\t!operations on shared " + map[string]string{"a": "atoms", "f": "futures"}[head[1]] + " blocked forever", "-"
 	}
 	var b strings.Builder
 	for _, rs := range recs {
